@@ -399,6 +399,24 @@ func Eq(a, b *Term) *Term {
 			// |a-b| < 2^62 and non-zero mathematically => non-zero mod 2^64
 			return False
 		}
+		// normal form (ring equality modulo 2^64): atoms == constant
+		d := linCombine(linOf(a), linOf(b), -1)
+		if len(d.atoms) > 0 && (len(linOf(a).atoms) > 0 && len(linOf(b).atoms) > 0 || linOf(a).c != 0 && len(linOf(a).atoms) > 0 || linOf(b).c != 0 && len(linOf(b).atoms) > 0) {
+			p := &Lin{atoms: d.atoms, coefs: d.coefs}
+			k := -d.c
+			if d.coefs[0] < 0 {
+				neg := &Lin{atoms: d.atoms}
+				for _, c := range d.coefs {
+					neg.coefs = append(neg.coefs, -c)
+				}
+				p, k = neg, d.c
+			}
+			l, r := fromLin(p), CI(k)
+			if l.id > r.id {
+				l, r = r, l
+			}
+			return mk("=", 0, 0, "", 0, 0, l, r)
+		}
 	} else {
 		ua, ok1 := ubOf(a)
 		ub, ok2 := ubOf(b)
@@ -557,6 +575,25 @@ func Lt(a, b *Term, signed bool) *Term {
 				}
 				if lo >= 0 {
 					return False
+				}
+				// normal form: all quantities are overflow-free, so a < b  <=>  atoms < constant
+				d := linCombine(linOf(a), linOf(b), -1)
+				if len(d.atoms) > 0 {
+					allNeg := true
+					for _, c := range d.coefs {
+						if c > 0 {
+							allNeg = false
+						}
+					}
+					if allNeg {
+						neg := &Lin{atoms: d.atoms}
+						for _, c := range d.coefs {
+							neg.coefs = append(neg.coefs, -c)
+						}
+						// -P < -c  <=>  c < P
+						return mk("bvslt", 0, 0, "", 0, 0, CI(d.c), fromLin(neg))
+					}
+					return mk("bvslt", 0, 0, "", 0, 0, fromLin(&Lin{atoms: d.atoms, coefs: d.coefs}), CI(-d.c))
 				}
 			}
 		}
@@ -998,4 +1035,26 @@ func (m *Model) eval(t *Term, memo map[*Term]uint64) uint64 {
 	}
 	memo[t] = r
 	return r
+}
+
+func dumpTerm(t *Term, depth int) string {
+	if t.Op == "const" {
+		return fmt.Sprintf("%d:%d", t.Val, t.W)
+	}
+	if t.Op == "var" || t.Op == "true" || t.Op == "false" {
+		return ref(t)
+	}
+	if depth == 0 {
+		return "..."
+	}
+	var sb strings.Builder
+	sb.WriteString("(" + t.Op)
+	if t.Op == "extract" {
+		fmt.Fprintf(&sb, "[%d:%d]", t.P1, t.P2)
+	}
+	for _, a := range t.Args {
+		sb.WriteString(" " + dumpTerm(a, depth-1))
+	}
+	sb.WriteString(")")
+	return sb.String()
 }
